@@ -236,14 +236,12 @@ class Output(BaseOutput):
         self.nc.variables["time"][self.local_record_count] = self.timer.nctime()
 
         if self.layout == "dense":
-            # Living particles are stored at index pid
+            # Living particles are stored at index pid, fill value elsewhere
             pid = state.pid[state.alive]
             for var in self.instance_variables:
                 if self.lonlat and var in ["lon", "lat"]:
                     continue  # Computed from the position below
-                self.nc.variables[var][self.local_record_count, pid] = getattr(
-                    state, var
-                )[state.alive]
+                self.write_dense_row(var, pid, getattr(state, var)[state.alive], state)
         elif self.layout == "sparse":
             count = len(state)  # Present number of particles
             start = self.local_instance_count
@@ -258,8 +256,8 @@ class Output(BaseOutput):
         if self.lonlat:
             lon, lat = self.xy2ll(state.X, state.Y)
             if self.layout == "dense":
-                self.nc.variables["lon"][self.local_record_count, pid] = lon[state.alive]
-                self.nc.variables["lat"][self.local_record_count, pid] = lat[state.alive]
+                self.write_dense_row("lon", pid, lon[state.alive], state)
+                self.write_dense_row("lat", pid, lat[state.alive], state)
             elif self.layout == "sparse":
                 self.nc.variables["lon"][start:end] = lon
                 self.nc.variables["lat"][start:end] = lat
@@ -285,6 +283,13 @@ class Output(BaseOutput):
                 self.nc = self.create_netcdf()
                 self.local_instance_count = 0
                 self.local_record_count = 0
+
+    def write_dense_row(self, var: str, pid: Any, values: Any, state: State) -> None:
+        """Write one record of a variable in the dense layout"""
+        if state.npid > 0:
+            row = np.ma.masked_all(state.npid, dtype=values.dtype)
+            row[pid] = values
+            self.nc.variables[var][self.local_record_count, : state.npid] = row
 
     def write_particle_variables(self, state: State) -> None:
         """Write all output particle variables
